@@ -116,8 +116,17 @@ class Blob:
             raise Unsupported("stepped slice of a Blob")
         a = 0 if k.start is None else k.start
         b = k.stop
-        if (isinstance(a, int) and a < 0) or (isinstance(b, int) and b < 0):
-            raise Unsupported("negative slice bound on a Blob")
+        n = None
+        if isinstance(b, int) and b < 0:          # x[:-k] == x[:len-k]
+            n = self.__symlen__()
+            b = n + b
+            if bool(_n(b) < 0):
+                b = 0
+        if isinstance(a, int) and a < 0:
+            n = self.__symlen__() if n is None else n
+            a = n + a
+            if bool(_n(a) < 0):
+                a = 0
         return self._slice(a, b)
 
     def _slice(self, a, b):
